@@ -11,6 +11,7 @@ from ..kernel import canon
 from . import solver as S
 
 MAXP = 4
+RESERVED = ['index', 'size']  # legal variable names that collide with an attribute / a property of the container
 LINKER_SPANS = ['range', 'list_int', 'list_str', 'list_mixed']
 
 
@@ -186,6 +187,8 @@ def generate(rng, idx, tier, variant):
         return generate_pairs(rng, idx, tier)
     fam = gen_family(rng, variant)
     n = rng.randint(1, 12 if tier == 'thorough' else 8)
+    if rng.random() < 0.012 and variant in ('container', 'labels'):
+        n = 300  # well past any small-number special case (e.g. CPython's cached small integers)
     stype = rng.choice(LINKER_SPANS if fam == 'linker' else spans.TYPES)
     spec = {'family': fam, 'span': {'type': stype, 'n': n, 'origin': rng.choice([0, 1, 3, 7]), 'step': rng.choice([2, 2, 3])}, 'strict': rng.random() < 0.25}
     g = {'base': 0, 'names': {0: []}, 'np': 1}
@@ -216,7 +219,9 @@ def generate(rng, idx, tier, variant):
         spec['span']['n'] = n
         spec['model'] = {'kind': 'parser', 'script': prog['script'], 'names': prog['names'], 'init': scripts.gen_data(rng, prog, n), 'lags': prog['lags'], 'leads': prog['leads']}
         g['names'][0] = [(nm, 'float') for nm in prog['names']]
-    elif fam == 'linker':
+    if fam in ('scripted', 'parser', 'alias', 'tracer', 'alias+tracer') and variant == 'copies' and rng.random() < 0.3:
+        spec['dtype'] = rng.choice(['int', 'float32', 'bool'])  # the model's own dtype= argument
+    if fam == 'linker':
         subs = {}
         for sid in ['A', 'B', 'C'][: rng.randint(0, 3)]:
             ms = S.gen_spec(rng, 'solver', tier)
@@ -233,12 +238,17 @@ def generate(rng, idx, tier, variant):
             dt = rng.choice(['float', 'float', 'int', 'bool', 'str'])
             ops.append({'op': 'add_variable', 'obj': 0, 'name': f'V{i}', 'value': _good_vspec(rng, g, dt), 'dtype': rng.choice([None, dt])})
             g['names'][0].append((f'V{i}', dt))
+        if variant == 'reindex' and rng.random() < 0.08:
+            # a variable whose name is also the name of a container attribute / property: reachable by key only
+            rn = rng.choice(RESERVED)
+            ops.append({'op': 'add_variable', 'obj': 0, 'name': rn, 'value': _good_vspec(rng, g, 'float'), 'dtype': 'float'})
+            g['names'][0].append((rn, 'float'))
     n_ops = rng.randint(5, 40 if tier == 'thorough' else 24)
     W = {
         'container': {'add_variable': 3, 'setattr': 5, 'setitem': 3, 'setitem_label': 2, 'setitem_slice': 2, 'set_pos': 2, 'replace_values': 2, 'set_values': 2, 'add_attribute': 1, 'set_attr_plain': 2, 'set_strict': 1, 'get': 2, 'spawn': 0.5, 'reindex': 0.3},
         'labels': {'add_variable': 1, 'setattr': 1, 'setitem_label': 6, 'setitem_slice': 6, 'set_pos': 2, 'get': 4, 'setitem': 1, 'reindex': 1.5, 'reuse_key': 3, 'spawn': 0.5},
         'copies': {'mutate_any': 5, 'add_variable': 2, 'setattr': 3, 'setitem_label': 1, 'setitem_slice': 1, 'set_pos': 3, 'replace_values': 1, 'set_values': 1, 'add_attribute': 1, 'set_attr_plain': 2, 'set_strict': 1, 'spawn': 5, 'mutate_list': 5, 'solve': 2, 'sub_poke': 2, 'reindex': 0.5},
-        'reindex': {'add_variable': 3, 'setattr': 3, 'set_pos': 2, 'setitem_slice': 1, 'get': 1, 'reuse_key': 1, 'reindex': 6, 'solve': 2, 'set_strict': 1, 'spawn': 0.5},
+        'reindex': {'add_attribute': 2, 'add_variable': 3, 'setattr': 3, 'set_pos': 2, 'setitem_slice': 1, 'get': 1, 'reuse_key': 1, 'reindex': 6, 'solve': 2, 'set_strict': 1, 'spawn': 0.5},
     }[variant]
     kinds, weights = zip(*sorted(W.items()))
     for _ in range(n_ops):
@@ -271,6 +281,8 @@ def generate(rng, idx, tier, variant):
             else:
                 nm, dt = pick()
                 vs = _good_vspec(rng, g, dt) if rng.random() < 0.5 else _vspec(rng, g, elem=dt if rng.random() < 0.7 else None)
+                if vs['k'] == 'seq' and vs['c'] in ('list', 'tuple') and vs['len'] == 'n' and dt in ('float', 'int', 'bool') and rng.random() < 0.12:
+                    vs['tail'] = rng.choice(['bad', 'none'])
                 ops.append({'op': kind, 'obj': p, 'name': nm, 'value': vs})
         elif kind == 'setitem_label':
             if not names:
@@ -279,7 +291,8 @@ def generate(rng, idx, tier, variant):
             pos = rng.randrange(n) if rng.random() < 0.88 else 'absent'
             vs = {'k': 'scalar', 'e': dt, 'base': g['base']} if rng.random() < 0.85 else _vspec(rng, g, elem=dt)
             g['base'] += 7
-            ops.append({'op': 'setitem_label', 'obj': p, 'name': nm if rng.random() < 0.95 else '?unknown', 'pos': pos, 'form': rng.choice([0, 0, 1]), 'value': vs})
+            r_ = rng.random()
+            ops.append({'op': 'setitem_label', 'obj': p, 'name': nm if r_ < 0.92 else '?unknown' if r_ < 0.96 else rng.choice(['?index', '?names', '?span', '?check', '?_attributes']), 'pos': pos, 'form': rng.choice([0, 0, 1]), 'value': vs})
         elif kind == 'setitem_slice':
             if not names:
                 continue
@@ -322,7 +335,8 @@ def generate(rng, idx, tier, variant):
             else:
                 ops.append({'op': 'set_values', 'obj': p, 'value': {'k': 'scalar', 'e': rng.choice(['float', 'int', 'bool']), 'base': g['base']}})
         elif kind == 'add_attribute':
-            ops.append({'op': 'add_attribute', 'obj': p, 'name': rng.choice(['note', 'meta', 'tag']) + str(rng.randrange(3)), 'v': rng.randrange(100)})
+            nm_ = rng.choice(['note', 'meta', 'tag']) + str(rng.randrange(3)) if rng.random() < 0.7 else rng.choice(['model', 'models', 'sub', 'subs', 'submodel', 's', 'dels'])
+            ops.append({'op': 'add_attribute', 'obj': p, 'name': nm_, 'v': rng.randrange(100), 'shape': rng.choice(['int', 'int', 'list', 'dict', 'ndarray', 'tuple-of-list', 'tuple-of-ndarray', 'nested'])})
         elif kind == 'set_attr_plain':
             r = rng.random()
             if r < 0.4 and names:
@@ -440,9 +454,10 @@ def build_first(fsic, spec):
     span = spans.make_span(spec['span'])
     if fam == 'vc':
         return fsic.core.VectorContainer(span, strict=spec['strict']), span
+    dtk = {} if not spec.get('dtype') else {'dtype': {'int': int, 'float32': np.float32, 'bool': bool}[spec['dtype']]}
     if fam == 'parser':
         cls = fsic.build_model(fsic.parse_model(spec['model']['script']))
-        m = cls(span, strict=spec['strict'])
+        m = cls(span, strict=spec['strict'], **dtk)
         for nm, vals in spec['model']['init'].items():
             if nm in m.__dict__['index']:
                 m.__dict__['_' + nm][:] = vals
@@ -461,7 +476,7 @@ def build_first(fsic, spec):
         if fam == 'pandasmixin':
             bases.append(PandasIndexFeaturesMixin)
         cls = type('Mixed', tuple(bases) + (base,), attrs) if bases else base
-        m = cls(span, strict=spec['strict'])
+        m = cls(span, strict=spec['strict'], **dtk)
         for nm, vals in spec['model']['init'].items():
             m.__dict__['_' + nm][:] = vals
         probes.attach_ctl(m)
@@ -564,8 +579,8 @@ def read_paths(party, nm, ctx, rng_positions):
     x = party.obj
     want = party.ref[nm]
     try:
-        a1 = getattr(x, nm)
         a2 = x[nm]
+        a1 = getattr(x, nm) if nm not in RESERVED else a2
     except Exception as e:
         ctx.check('C10', 'read/whole-series', False, {'exc': type(e).__name__})
         return
@@ -638,7 +653,7 @@ def reachable_mutables(x, depth=4):
             out.append((path, o))
             items = o.items() if isinstance(o, dict) else enumerate(o) if isinstance(o, list) else []
             for k, v in items:
-                if isinstance(v, (list, dict, set, np.ndarray)) or hasattr(v, '__dict__'):
+                if isinstance(v, (list, dict, set, np.ndarray, tuple)) or hasattr(v, '__dict__'):
                     walk(v, f'{path}[{k}]' if isinstance(o, list) else f'{path}/{k}', dleft - 1)
             return
         if isinstance(o, np.ndarray):
@@ -649,7 +664,13 @@ def reachable_mutables(x, depth=4):
             elif o.size:
                 out.append((path, o))
             return
-        if isinstance(o, (str, int, float, bool, type(None), range, tuple, type, np.generic)):
+        if isinstance(o, tuple):
+            # a tuple cannot change, the things in it can
+            for k, v in enumerate(o):
+                if isinstance(v, (list, dict, set, np.ndarray, tuple)) or hasattr(v, '__dict__'):
+                    walk(v, f'{path}({k})', dleft - 1)
+            return
+        if isinstance(o, (str, int, float, bool, type(None), range, type, np.generic)):
             return
         if type(o).__module__.startswith('pandas'):
             return
@@ -776,6 +797,9 @@ def execute(schedule, ctx):
             if cls_ == 'ok':
                 ctx.probe('must-succeed:' + kind)
                 ctx.check(prop, sig + '/must-succeed', e is None, {'exc': type(e).__name__ if e else None, 'msg': str(e)[:120] if e else None, 'op': {k: v for k, v in op.items() if k != 'value'}, 'value': op.get('value')})
+                if e is not None and prop == 'C09' and kind in ('setattr', 'setitem'):
+                    # a well-formed write through the attribute / name-key path that is refused can never be read back (C10)
+                    ctx.check('C10', f'write-path/{kind}-refused-well-formed-value', False, {'exc': type(e).__name__, 'msg': str(e)[:120], 'n': n})
                 if e is None:
                     if nm is not None and new is not None:
                         party.ref[nm] = new
@@ -810,7 +834,7 @@ def execute(schedule, ctx):
             dt = op.get('dtype')
             dtype_arg = None if dt is None else RC.DTYPES[dt]
             fn = lambda: x.add_variable(nm, v, dtype=dtype_arg) if dt is not None else x.add_variable(nm, v)  # noqa: E731
-            if nm in party.order or nm in d['_attributes']:
+            if nm in party.order or (nm in d['_attributes'] and nm not in RESERVED):
                 outcome = settle('fail', None, None, 'C09', 'add_variable/duplicate-name', fn)
             else:
                 default_dt = None
@@ -855,7 +879,7 @@ def execute(schedule, ctx):
                     outcome = 'skipped'
             elif nm in party.ref:
                 cls_, new = RC.expect_whole(party.ref[nm], v, n)
-                if kind == 'setattr':
+                if kind == 'setattr' and nm not in RESERVED:
                     fn = lambda: setattr(x, nm, v)  # noqa: E731
                 else:
                     fn = lambda: x.__setitem__(nm, v)  # noqa: E731
@@ -869,7 +893,19 @@ def execute(schedule, ctx):
         elif kind == 'setitem_label':
             nm = op['name']
             v = RC.make_value(op['value'], n)
-            if nm == '?unknown':
+            if nm.startswith('?') and nm != '?unknown':
+                # the name of a bookkeeping attribute is not the name of a variable
+                bk = nm[1:]
+                if bk in d['index'] or not party.unique or op['pos'] == 'absent' or op['pos'] >= n:
+                    outcome = 'skipped'
+                else:
+                    lab_ = label_at(party, op['pos'], 0)
+                    e = attempt(lambda: x.__setitem__((bk, lab_), 'Q'))
+                    ctx.probe('bookkeeping-name-as-variable-key')
+                    ctx.check('C09', 'setitem-label/bookkeeping-name-must-raise', e is not None, {'name': bk})
+                    ctx.check('C09', 'setitem-label/failed-op-leaves-object-unchanged', O.obs(x) == before[i], {'name': bk, 'paths': O.diff(before[i], O.obs(x))[:4]})
+                    outcome = 'raised' if e is not None else 'accepted-bad'
+            elif nm == '?unknown':
                 e = attempt(lambda: x.__setitem__(('nosuchvar', party.labels[0]), v))
                 ctx.check('C09', 'setitem-label/unknown-name-must-raise', e is not None, None)
                 ctx.check('C09', 'setitem-label/failed-op-leaves-object-unchanged', O.obs(x) == before[i], None)
@@ -936,7 +972,7 @@ def execute(schedule, ctx):
                     how = ctx.step % 2
 
                     def fn():
-                        arr = getattr(x, nm) if how else x[nm]
+                        arr = getattr(x, nm) if (how and nm not in RESERVED) else x[nm]
                         arr[p] = v
 
                     outcome = settle(cls_, new, nm, 'C10', 'position-set', fn)
@@ -1045,7 +1081,8 @@ def execute(schedule, ctx):
 
         elif kind == 'add_attribute':
             nm = op['name']
-            e = attempt(lambda: x.add_attribute(nm, op['v']))
+            val_ = attr_value(op.get('shape', 'int'), op['v'])
+            e = attempt(lambda: x.add_attribute(nm, val_))
             dup = nm in d['index'] or nm in before[i]['attributes']
             ctx.check('C09', 'add_attribute/duplicate-iff-raises', (e is not None) == dup, {'name': nm, 'exc': type(e).__name__ if e else None})
             if e is None:
@@ -1271,6 +1308,23 @@ def execute(schedule, ctx):
         ctx.outcome(kind, outcome)
         ctx.log(ctx.step, kind, i, outcome)
         ctx.state([kind, outcome, [[str(a.dtype), canon(a.tolist())] for a in party.ref.values()][:6], bool(d['_strict'])])
+
+
+def attr_value(shape, v):
+    """Values a user may hang on an object as a plain attribute, including containers of mutable things."""
+    if shape == 'list':
+        return [v, v + 1]
+    if shape == 'dict':
+        return {'a': v, 'b': [v]}
+    if shape == 'ndarray':
+        return np.arange(3, dtype=float) + v
+    if shape == 'tuple-of-list':
+        return ([v, v + 1], 'label')
+    if shape == 'tuple-of-ndarray':
+        return (np.arange(2, dtype=float) + v, {'k': v})
+    if shape == 'nested':
+        return {'weights': np.ones(2) * v, 'names': ['x', 'y'], 'pair': ([v], (v,))}
+    return v
 
 
 def _vclass(vs):
